@@ -9,8 +9,8 @@ on one real Client; in every state reached a request probe is issued (settings: 
 families, context; plus an unknown setting).  Reference model: a stack of plain
 dicts.  At every ``request`` the sender's keyword arguments and the datagram
 (decoded by the reference side) must be those of the model's top of stack;
-after every exit ``client.config`` equals the configuration before the matching
-enter; exit_exc lets the exception propagate; unknown settings raise and
+after every exit what is visible of ``client.config`` equals the configuration
+before the matching enter and a request needs no second engine discovery; exit_exc lets the exception propagate; unknown settings raise and
 change nothing.
 """
 
@@ -113,10 +113,17 @@ class System:
         self.v3_agent = ragent.V3Agent(DB, list(USERS.values()), clock=lambda: CLOCK.now)
         self.client, self.sender = world.make_client(lib_creds(INITIAL["credentials"]), self.handle)
         self.stack = [dict(INITIAL)]
-        self.tokens = [0]  # model: which message-processing instance each frame uses
-        self.next_token = 1
-        self.discovered = set()  # tokens whose (v3) instance has done discovery
-        self.used = {}  # token -> credentials a request was issued with, in order of first use
+        # Each frame of the model stack lives through *incarnations*: a new one
+        # starts with every configure() on that frame and with every enter (how
+        # an implementation maps frames to message-processing instances - one
+        # per credential family, a fresh one per call - is its own business).
+        # What the property fixes is restoration: after leaving a block the
+        # outer frame's incarnation continues, so a request there behaves as
+        # the requests there did before.
+        self.incs = [0]
+        self.next_inc = 1
+        self.served = {}  # incarnation -> credentials a request succeeded with there
+        self.ever = ()  # every credentials a request was issued with, in order of first use
         self.blocks = []  # (context manager, client.config before enter)
         self.datagrams = []
         self.dead = False
@@ -141,27 +148,41 @@ class System:
     def fingerprint(self):
         c = self.client
 
-        def cfg(x):
-            return (repr_creds(x.credentials), x.timeout, x.retries, x.context.engine_id, x.context.name)
-
-        # tokens renamed by first occurrence: only the sharing pattern matters
+        # tokens renamed by first occurrence: only the pattern matters
         ren = {}
-        toks = tuple(ren.setdefault(t, len(ren)) for t in self.tokens)
-        disc = tuple(sorted(ren[t] for t in self.discovered if t in ren))
-        # which credentials each live instance has already worked with (state
-        # derived from credentials - localised keys - may be kept per instance)
-        used = tuple(sorted((ren[t], u) for t, u in self.used.items() if t in ren))
+        incs = tuple(ren.setdefault(t, len(ren)) for t in self.incs)
+        served = tuple(sorted((ren[t], u) for t, u in self.served.items() if t in ren))
+        mpm = getattr(c, "mpm", None)
         return (
-            toks,
-            disc,
-            used,
+            incs,
+            served,
+            # state derived from credentials (localised keys ...) may be kept
+            # anywhere: histories that served other credentials are other states
+            self.ever,
             tuple(tuple(sorted(f.items())) for f in self.stack),
-            cfg(c.config),
-            type(c.mpm).__name__,
-            bool(getattr(c.mpm, "disco", None)),
+            cfg(getattr(c, "config", None)),
+            type(mpm).__name__,
+            bool(getattr(mpm, "disco", None)),
             tuple(cfg(old) for _, old in self.blocks),
             self.dead,
         )
+
+
+def cfg(x):
+    """what is visible of a client configuration object (the attribute names
+    are the documented ones; an object laid out otherwise just contributes
+    less to the canonical state)"""
+    try:
+        return (repr_creds(x.credentials), x.timeout, x.retries, x.context.engine_id, x.context.name)
+    except AttributeError:
+        return None
+
+
+def same_config(a, b):
+    pa, pb = cfg(a), cfg(b)
+    if pa is None or pb is None:
+        return True  # nothing to compare: the request probes decide
+    return pa == pb
 
 
 def repr_creds(c):
@@ -242,7 +263,7 @@ def step(sysm, ev):
                 c.configure(bogus=1)
                 bad("unknown-setting-accepted")
             except Exception:  # noqa
-                if c.config != before:
+                if not same_config(c.config, before):
                     bad("unknown-setting-changed-configuration")
             return out
         try:
@@ -250,10 +271,8 @@ def step(sysm, ev):
         except Exception as exc:  # noqa
             bad("configure-raised", exception=repr(exc)[:200])
             return out
-        newc = creds_of(key, val)
-        if newc is not None and family(newc) != family(sysm.stack[-1]["credentials"]):
-            sysm.tokens[-1] = sysm.next_token
-            sysm.next_token += 1
+        sysm.incs[-1] = sysm.next_inc
+        sysm.next_inc += 1
         model_update(sysm.stack[-1], key, val)
     elif name == "configure2":
         # credentials of (possibly) another family together with an unknown
@@ -264,14 +283,13 @@ def step(sysm, ev):
             c.configure(**{key: lib_value(key, val), "bogus": 1})
             bad("unknown-setting-accepted")
         except Exception:  # noqa
-            if c.config != before:
+            if not same_config(c.config, before):
                 bad("unknown-setting-changed-configuration")
         # the refused call must not have changed what is spoken
         out.extend(step(sysm, ("request",)))
     elif name == "enter":
         key, val = ev[1], ev[2]
         before = c.config
-        before_mpm = c.mpm
         kwargs = {"bogus": 1} if key == "bogus" else lib_kwargs(key, val)
         cm = c.reconfigure(**kwargs)
         try:
@@ -279,7 +297,7 @@ def step(sysm, ev):
         except Exception as exc:  # noqa
             if key != "bogus":
                 bad("enter-raised", exception=repr(exc)[:200])
-            elif c.config != before or c.mpm is not before_mpm:
+            elif not same_config(c.config, before):
                 bad("unknown-setting-changed-configuration")
             return out
         if key == "bogus":
@@ -287,18 +305,15 @@ def step(sysm, ev):
             return out
         sysm.blocks.append((cm, before))
         frame = dict(sysm.stack[-1])
-        newc = creds_of(key, val)
-        if newc is not None and family(newc) != family(frame["credentials"]):
-            sysm.tokens.append(sysm.next_token)
-            sysm.next_token += 1
-        else:
-            sysm.tokens.append(sysm.tokens[-1])
+        sysm.incs.append(sysm.next_inc)
+        sysm.next_inc += 1
         model_update(frame, key, val)
         sysm.stack.append(frame)
     elif name in ("exit_ok", "exit_exc", "exit_cancel"):
         cm, before = sysm.blocks.pop()
         sysm.stack.pop()
-        sysm.tokens.pop()
+        gone = sysm.incs.pop()
+        sysm.served.pop(gone, None)
         if name == "exit_cancel":
             import asyncio
 
@@ -328,7 +343,7 @@ def step(sysm, ev):
                 bad("exit-raised-other-exception", exception=repr(exc)[:200])
             if swallowed:
                 bad("exception-of-the-block-swallowed")
-        if c.config != before:
+        if not same_config(c.config, before):
             bad("configuration-not-restored", now=repr(c.config)[:300], before=repr(before)[:300])
     elif name == "request":
         top = sysm.stack[-1]
@@ -357,19 +372,25 @@ def step(sysm, ev):
                 bad("transport-arguments-not-from-active-configuration", got=kw)
                 break
         judge_datagram(sysm.datagrams[-1], top, bad, sysm)
-        # discovery: a message-processing instance discovers once; leaving a
-        # block gives the instance (and its discovery) of before the block back
-        tok = sysm.tokens[-1]
-        if top["credentials"] not in sysm.used.get(tok, ()):
-            sysm.used[tok] = sysm.used.get(tok, ()) + (top["credentials"],)
+        # discovery: once a request has succeeded in an incarnation of a frame
+        # the engine is known there, and leaving inner blocks gives exactly
+        # that state back - every later request of the incarnation is a single
+        # datagram.  The first request of an incarnation may or may not need
+        # the discovery exchange (the instance may be fresh or shared).
+        inc = sysm.incs[-1]
+        if top["credentials"] not in sysm.ever:
+            sysm.ever = sysm.ever + (top["credentials"],)
         if family(top["credentials"]) == "v3":
-            expected = 1 if tok in sysm.discovered else 2
-            sysm.discovered.add(tok)
+            known = top["credentials"] in sysm.served.get(inc, ())
             facts["datagrams"] = len(sysm.datagrams)
-            if len(sysm.datagrams) != expected:
-                bad("engine-discovery-repeated-or-skipped", datagrams=len(sysm.datagrams), expected=expected)
+            if known and len(sysm.datagrams) != 1:
+                bad("engine-discovery-repeated-or-skipped", datagrams=len(sysm.datagrams), expected=1)
+            elif len(sysm.datagrams) not in (1, 2):
+                bad("engine-discovery-repeated-or-skipped", datagrams=len(sysm.datagrams), expected="1 or 2")
         elif len(sysm.datagrams) != 1:
             bad("unexpected-number-of-datagrams", datagrams=len(sysm.datagrams))
+        if top["credentials"] not in sysm.served.get(inc, ()):
+            sysm.served[inc] = sysm.served.get(inc, ()) + (top["credentials"],)
     return out
 
 
